@@ -138,18 +138,19 @@ def oracle(case, out):
         return None
     if out.startswith('HANG'):
         return ('operation-does-not-complete', 'threads did not finish within the watchdog time: ' + out)
+    if out == '<skipped>':
+        return None
     if out.startswith('<crash'):
         m = re.search(r'ThreadSanitizer: ([a-z\- ]+)', out)
         if m:
-            return ('tsan-' + m.group(1).strip().replace(' ', '-'), 'ThreadSanitizer report, then the process died: ' + out[:600])
+            return (tsan_key(m.group(1)), 'ThreadSanitizer report, then the process died: ' + out[:600])
         return ('crash', 'harness process died while running the case (memory corruption?): ' + out[:600])
     try:
         tsan, kinds = parse_out(groups, out)
     except ValueError as e:
         return ('incomplete-answer', 'not every operation produced a result: %s' % e)
     if tsan:
-        k = (kinds.split(',')[0] or 'report')
-        return ('tsan-' + k, 'ThreadSanitizer reported %d problem(s) inside the cache: %s' % (tsan, kinds))
+        return (tsan_key(kinds.split(',')[0]), 'ThreadSanitizer reported %d problem(s) inside the cache: %s' % (tsan, kinds))
     ops = [o for g in groups for o in g]
     nthreads = len(groups) - 1
     stamped = mode == 'l' or nthreads <= 1
@@ -392,22 +393,49 @@ def gen_cases(ctx):
 TSAN_ENV = {'TSAN_OPTIONS': 'exitcode=0 halt_on_error=0 report_thread_leaks=0 report_signal_unsafe=0 history_size=3 second_deadlock_stack=1'}
 
 
+TSAN_KINDS = ['data race', 'data-race', 'heap-use-after-free', 'use-after-free', 'lock-order-inversion', 'double lock', 'double-lock',
+              'unlock of an unlocked mutex', 'bad-unlock', 'destroy of a locked mutex', 'mutex-destroy-locked', 'read lock of a write locked mutex',
+              'bad-read-lock', 'read unlock of a write locked mutex', 'bad-read-unlock', 'use of an invalid mutex', 'invalid-mutex']
+
+
+def tsan_key(text):
+    """stable finding key for a ThreadSanitizer report description"""
+    t = text.lower()
+    for k in TSAN_KINDS:
+        if k in t:
+            k = k.replace(' ', '-')
+            return 'tsan-' + {'data-race': 'data-race', 'use-after-free': 'heap-use-after-free'}.get(k, k)
+    return 'tsan-report'
+
+
 def run_chunk(exe, cases):
-    """run cases through one harness process; a crash loses the case that was running: mark it and go on with the rest"""
+    """run cases through one harness process; a crash or hang loses the case that was running: mark it and go on with the rest.
+    After two such failures the rest of the chunk is skipped (a broken cache can hang on every case; one replay is enough)."""
     outs = []
     rest = list(cases)
     errs = ''
+    failures = 0
     while rest:
-        rc, out, err = vlib.run_lines(exe, rest, timeout=600, env=TSAN_ENV)
+        if failures >= 2:
+            outs += ['<skipped>'] * len(rest)
+            break
+        try:
+            rc, out, err = vlib.run_lines(exe, rest, timeout=900, env=TSAN_ENV)
+        except Exception as e:             # subprocess timeout: treat like a hang of the first unanswered case
+            outs.append('HANG harness process did not finish (%s)' % type(e).__name__)
+            outs += ['<skipped>'] * (len(rest) - 1)
+            break
+        if 'ThreadSanitizer' in err and len(errs) < 6000:
+            errs += err[:6000]
         if len(out) >= len(rest):
             outs += out[:len(rest)]
-            if 'ThreadSanitizer' in err and len(errs) < 6000:
-                errs += err[:6000]
             break
-        outs += out
+        failures += 1
         if out and out[-1].startswith('HANG'):
+            outs += out
             rest = rest[len(out):]
             continue
+        outs += out
         tail = err[-1500:].replace('\n', ' | ')
         m = re.search(r'WARNING: (ThreadSanitizer: [^(|]*)', err)
         outs.append('<crash rc=%s> %s %s' % (rc, m.group(1) if m else '', tail))
@@ -576,7 +604,11 @@ def run(ctx):
     pairs = pairs_mut = 0
     lin_in, lin_idx = [], []
     import hashlib
+    nskipped = 0
     for i, (c, o) in enumerate(zip(mt, outs)):
+        if o == '<skipped>':
+            nskipped += 1
+            continue
         r = oracle(c, o)
         if r:
             nfail += 1
@@ -617,7 +649,9 @@ def run(ctx):
     t5 = time.time()
     if replay and (race or lin) and not ctx.failures:
         ctx.notes.append('replay: the concurrent case was repeated with 40 jitter seeds without reproducing a failure')
-    cov['evaluations'] = cov.get('evaluations', 0) + len(mt)
+    cov['evaluations'] = cov.get('evaluations', 0) + len(mt) - nskipped
+    if nskipped:
+        cov['skipped_after_repeated_failure'] = nskipped
     prev = cov.get('distinct_nontrivial', 0)
     cov['distinct_nontrivial'] = prev + len(seen)
     cov['concurrent_runs'] = {'race_mode': len(race), 'history_mode': len(lin)}
